@@ -199,9 +199,13 @@ def canon_res(links):
 
 
 class Reg:
-    __slots__ = ("key", "loc", "lt", "base", "base_explicit", "extras", "links", "t", "alts", "writer", "unresolved")
+    __slots__ = ("key", "loc", "lt", "base", "base_explicit", "extras", "links", "t", "alts", "writer", "unresolved", "slack")
 
     def __init__(self):
+        # The write happened somewhere in [t - slack, t]. Requests to the directory are answered within
+        # milliseconds (slack 0); a simple registration (RFC 9176 5.1) is carried out at some instant between the
+        # registrant's POST and the directory's answer, while the directory fetches /.well-known/core.
+        self.slack = 0.0
         self.alts = []  # [(t, lt, why)] lifetimes a *rejected* request would have set had it been applied
         # set by the check after it has REPORTED that the directory lists this registration's links without
         # resolving them against the base: later expectations follow the observed form (resynchronisation)
@@ -262,6 +266,17 @@ class Model:
                 out.append(t + lt + self.grace)
         return out
 
+    def windows(self):
+        """[(lo, hi)]: intervals in which the liveness of some registration is not determined by the statement
+        (degenerate lo == hi unless the instant of the write is only known up to `slack`)."""
+        out = []
+        for r in list(self.live.values()) + self.ghosts:
+            e = r.expiry(self.grace)
+            out.append((e - r.slack, e))
+            for t, lt, _why in r.alts:
+                out.append((t + lt + self.grace, t + lt + self.grace))
+        return out
+
     def expire(self, now):
         """Remove what is past lifetime + grace. -> list of expired Reg"""
         gone = []
@@ -287,11 +302,13 @@ class Model:
         return None
 
     # -- writes ----------------------------------------------------------------
-    def register(self, key, loc, query, links, src, now, lenient=False):
-        """RFC 9176 5: a registration for an (ep, d) that exists replaces it entirely."""
+    def register(self, key, loc, query, links, src, now, lenient=False, slack=0.0):
+        """RFC 9176 5: a registration for an (ep, d) that exists replaces it entirely. (A simple registration,
+        5.1, is the same write with the links the directory fetched and the registrant's address as base.)"""
         pairs = [(k, v) for (k, v) in query if k not in ("ep", "d")]
         r = Reg()
         r.key, r.loc, r.t, r.writer = key, loc, now, src
+        r.slack = slack
         r.lt = DEFAULT_LT
         r.base, r.base_explicit = default_base(*src), False
         r.extras = []
@@ -313,6 +330,7 @@ class Model:
         old_base = reg.base
         self._apply_params(reg, list(query), src, lenient)
         reg.t = now
+        reg.slack = 0.0
         reg.writer = src
         if any(k == "lt" for (k, _v) in query):
             reg.alts = []
@@ -497,7 +515,12 @@ def selftest():
         pass
     else:
         raise AssertionError()
+    assert m.windows() == [(85.0, 85.0)]
     assert not m.expire(84.9) and [g.key for g in m.expire(85.0)] == [("n", None)] and m.freed == ["/reg/1/"]
+    s = m.register(("s", "x"), "/reg/2/", parse_query(["ep=s", "d=x", "lt=60"]), [], ("2001:db8::2", 61616), 200.0, slack=93.0)
+    assert s.base == "coap://[2001:db8::2]:61616" and not s.base_explicit and m.windows() == [(182.0, 275.0)]
+    m.update(s, parse_query([]), ("2001:db8::2", 61616), 210.0)
+    assert m.windows() == [(285.0, 285.0)]
     return True
 
 
